@@ -15,6 +15,8 @@
      proxy/executor.rs   handle_cmd_ctx (CmdType::Invalid / UmForward / Cluster KEYSLOT / Others), handle_umforward,
                          handle_data_cmd, handle_mget, handle_mset, handle_msetnx, handle_multi_int_cmd (DEL / EXISTS),
                          handle_eval_cmd, handle_multi_key_eval_cmd, handle_single_key_data_cmd
+   (handle_multi_key_eval_cmd is mirrored WITH its `min(key_num, command length)` clamp, i.e. the working tree after the
+   C16 fix; before that fix `3 + key_num` could overflow and panic in a checked build.)
    Not modelled (the model answers NotModelled): the blocking commands BLPOP/BRPOP/BRPOPLPUSH/BZPOPMIN/BZPOPMAX, every
    proxy-internal command other than CLUSTER KEYSLOT and UMFORWARD, sub-command tokens that are not ASCII (UTF-8 check),
    compression (assumed Disabled), a configured password (assumed None), running migration tasks.
@@ -537,6 +539,9 @@ Definition of_sres (r : sres) : outcome :=
   | SDropped => OutCanceled []
   end.
 
+(* handle_multi_key_eval_cmd: let key_num = min(key_num, command length) *)
+Definition eval_key_count (c : cmd) (key_num : N) : N := N.min key_num (N.of_nat (length c)).
+
 Definition handle_eval (bk : backend_fn) (cf : cfg) (ins : installed) (redir : option N) (c : cmd) : outcome :=
   match elem c 2 with
   | None => Out (Error e_eval_missing_numkeys) []
@@ -545,9 +550,9 @@ Definition handle_eval (bk : backend_fn) (cf : cfg) (ins : installed) (redir : o
     | None => Out (Error e_eval_invalid_numkeys) []
     | Some key_num =>
       if key_num =? 1 then of_sres (single bk cf ins redir c)
-      else if u64_max <? 3 + key_num then OutPanic                        (* 3 + key_num overflows *)
+      else if u64_max <? 3 + eval_key_count c key_num then OutPanic       (* 3 + key_num overflows *)
       else
-        let keys := filter_some (firstn_N key_num (skipn 3 c)) in
+        let keys := filter_some (firstn_N (eval_key_count c key_num) (skipn 3 c)) in
         if negb (same_slot keys) then refuse
         else of_sres (single bk cf ins redir c)
     end
